@@ -2,32 +2,38 @@
 
 PID = "C12"
 CLAIM = True
-MANIFEST_TEXT = ("Lean 4 theorems (20 obligations) about a line-by-line transcription of readINITree, ParameterTree's "
-                 "operator[]/hasKey/sub/get, readOptions/readNamedOptions and Parser<T>.  The documented INI dialect is formalised as "
-                 "an item grammar (blank, comment, [group] header, assignment with blanks, either quote, multi-line value, trailing "
-                 "comment) with an explicit lexical predicate; proved for ALL documents of the dialect, all trees, both flags: reading "
-                 "a document = applying the (full dotted key, value) assignments it denotes (parse_denotation); every hierarchy is "
-                 "recovered exactly - keys, values, key order - from every spelling of its entries (parse_render, + dotted and grouped "
-                 "renderings for every writable hierarchy); groups = dotted keys (documents and tree access); keys in order of first "
-                 "appearance at every node; duplicate key in one source never accepted (ParserError); overwrite flag (general and "
-                 "two-source form with a static prefix-freeness hypothesis); the parser terminates on every byte string; "
-                 "readOptions/readNamedOptions map pairs/positionals/named parameters as documented and report missing, unknown, "
-                 "superfluous, value-less, already-specified, help; get<integer> accepts exactly blanks[sign]digits blanks in range and "
-                 "returns that value (round trip with the canonical text for every 16/32/64-bit type), fixed-size ranges accept exactly n "
-                 "literals, default only when the key is absent, bool words.  Each run executes the model against the real code "
-                 "(12k cases quick / 1.2M thorough: rendered documents, raw documents, argument vectors, value strings for 40 target "
-                 "types under two global locales, tree queries) with independent reference oracles deciding the property, plus a "
-                 "hostile byte stream under ASan/UBSan.")
+MANIFEST_TEXT = ("Lean 4 theorems (25 obligations) about a line-by-line transcription of readINITree, ParameterTree's "
+                 "operator[]/hasKey/hasSub/sub (const and non-const)/get, readOptions/readNamedOptions and Parser<T>.  The documented INI "
+                 "dialect is formalised as an item grammar (blank, comment, [group] header, assignment with blanks, either quote, "
+                 "multi-line value, trailing comment) with an explicit lexical predicate; proved for ALL documents of the dialect, all "
+                 "trees, both flags: reading a document = applying the (full dotted key, value) assignments it denotes "
+                 "(parse_denotation); every hierarchy is recovered exactly - keys, values, key order - from every spelling of its "
+                 "entries (parse_render, + dotted and grouped renderings for every writable hierarchy); groups = dotted keys "
+                 "(documents, tree reads, and writes: sub(g) then [g.k]=v equals [g.k]=v); keys in order of first appearance at every "
+                 "node for both values of the overwrite flag; duplicate key in one source never accepted (ParserError); overwrite flag "
+                 "(general and two-source form with a static prefix-freeness hypothesis); the parser terminates on every byte string; a "
+                 "source whose stream fails is reported (IOError), never accepted; readOptions/readNamedOptions map "
+                 "pairs/positionals/named parameters as documented and report missing, unknown, superfluous, value-less, "
+                 "already-specified, help; get<integer> accepts exactly blanks[sign]digits blanks in range and returns that value "
+                 "(round trip with the canonical text for every 16/32/64-bit type, also for fixed-size ranges and vectors), fixed-size "
+                 "ranges accept exactly n literals, string arrays exactly n words, char exactly one non-blank character, split() = the "
+                 "maximal runs of non-blanks (declarative definition), vector/bitset/string characterised by iff, default only when the "
+                 "key is absent, bool words.  Each run executes the model against the real code (12k cases quick / 1.2M thorough: "
+                 "rendered documents, raw documents, streams failing after n bytes, argument vectors, value strings for 50 target types "
+                 "(incl. float bit-exact, char, FieldVector<double>) under two global locales, tree queries incl. group creation) with "
+                 "independent reference oracles deciding the property, every readINITree overload (stream/file, with/without default "
+                 "arguments, returning/filling) cross-checked on every document, plus a hostile byte stream under ASan/UBSan.")
 MANIFEST_NOTE = ("Trusted: Lean kernel (+propext/Classical.choice/Quot.sound), the hand-written model's fidelity (differential "
-                 "execution only; no translator), the harness' reference tree / strict dialect recogniser / numeric recognisers, "
-                 "g++/libstdc++/glibc, ASan/UBSan.  operator>> is libstdc++'s: its classic-locale integer and floating lexers are "
-                 "modelled; floating values are compared bit-exactly through a correctly-rounded conversion in the model but no theorem "
-                 "is stated about floating point.  Hostile/out-of-dialect byte streams: only 'no crash, no hang (60 s alarm), success or "
-                 "Dune exception' is checked, the model is not compared there (it is nevertheless total: parse_total).  Not claimed: '#' "
-                 "inside quoted values, a quote character inside a value quoted with the same character, a negative literal for an "
-                 "unsigned target (answer masked as 'noclaim'), names that are both value and group (modelled, oracle abstains), "
-                 "parse_render for overwrite=false.  The model describes the code with fixes/C12_parserange.patch applied "
-                 "(fixes/C12_emptyquote.patch is behaviour-neutral under libstdc++).")
+                 "execution only; no translator), the harness' reference tree / strict dialect recogniser / numeric recognisers "
+                 "(std::from_chars for floating values), g++/libstdc++/glibc, ASan/UBSan.  operator>> is libstdc++'s: its "
+                 "classic-locale integer, floating, word and char extraction are modelled; float/double values are compared bit-exactly "
+                 "through a correctly-rounded conversion in the model but no theorem is stated about floating point.  Hostile/"
+                 "out-of-dialect byte streams: only 'no crash, no hang (60 s alarm), success or Dune exception' is checked, the model is "
+                 "not compared there (it is nevertheless total: parse_total).  Not claimed: '#' inside quoted values, a quote character "
+                 "inside a value quoted with the same character, a negative literal for an unsigned target (answer masked as 'noclaim'), "
+                 "names that are both value and group (modelled, oracle abstains), parse_render for overwrite=false, long double, "
+                 "std::array<bool,n>.  The model describes the repaired code (repo commits 27625ff parseRange trailing-text check, "
+                 "deabf63 empty-string test in the quote loop, d4ed0d8 failing input stream = fixes/C12_*.patch).")
 TECHNIQUE = "Lean 4 proof over a transcribed parser/tree/lexer model + differential correspondence with independent reference oracles"
 TRANSLATORS = []
 HARNESS = dict(
@@ -39,16 +45,20 @@ HARNESS = dict(
 RULE = ("cases: rt = random key/value hierarchy (shared groups, depth<=4) spelled item by item (group vs dotted, blanks, CR, "
         "either quote, multi-line values, comments, blank lines, [] resets, optional first source + overwrite flag, occasional "
         "duplicates); ini = raw documents (documentation example, hand-written, rendered, byte-mutated) judged by a strict "
-        "dialect recogniser; get = value strings for 40 target types (limits of 16/32/64-bit, signs, leading zeros, blanks "
-        "incl. \\v\\f, trailing garbage, too few/many items, double overflow/underflow/ties) under two global locales; "
-        "opt/nopt = argument vectors; tq = tree queries incl. defaults; hostile = random bytes, unbalanced quotes, huge lines. "
+        "dialect recogniser; get = value strings for 50 target types (limits of 16/32/64-bit, signs, leading zeros, blanks "
+        "incl. \\v\\f, trailing garbage, too few/many items, double and float overflow/underflow/ties, one third clean texts "
+        "so that every type also sees accepted input) under two global locales; opt/nopt = argument vectors (+ help strings); "
+        "tq = tree built by operator[] and non-const sub(), queried incl. defaults through all get overloads; bads = dialect "
+        "document on a stream that fails after n bytes; hostile = random bytes, unbalanced quotes, huge lines; rt/ini also run "
+        "every readINITree overload (file name / stream, default arguments) and require identical results. "
         "distinct = distinct op lines; non-trivial = the independent oracle made a claim (inside the dialect / syntax)")
 ASSUMPTIONS = [
     "the Lean model lean/DuneVerif/Model/C12.lean is hand-written; its fidelity to parametertree.{hh,cc}/parametertreeparser.cc rests on this differential run",
     "bytes are modelled as Lean Char values < 256; std::string/std::istringstream/getline behave as specified",
     "operator>> for built-in integers/double/std::string is libstdc++'s classic-locale num_get (modelled, not verified); strtod is correctly rounded",
     "the hostile stream is checked for termination/exception class only (60 s alarm per op)",
-    "the model describes the repaired code (repo commits 27625ff parseRange trailing-text check, deabf63 empty-string test in the quote loop = fixes/C12_*.patch)",
+    "the model describes the repaired code (repo commits 27625ff parseRange trailing-text check, deabf63 empty-string test in the quote loop, d4ed0d8 failing stream = fixes/C12_*.patch)",
+    "a failing input stream is modelled as: the bytes delivered so far are processed as a complete input, then the read error is reported (checked against a streambuf whose underflow throws)",
 ]
 TRUSTED = ["g++/libstdc++, ASan/UBSan", "harness/cxx_c12.cc (reference tree, strict dialect recogniser, numeric recognisers) + Driver/C12.lean parsing/printing"]
 
